@@ -354,3 +354,25 @@ package tree
 //@ fn node.checkAmbiguous
 //@   requires [C06] lock: heldR(n)
 //@   requires n != nil && allocated(n) && allSafe() && rootOK(n)
+
+// ---------------------------------------------------------------- middleware application (C09)
+
+// A middleware factory is a deterministic function of its arguments (A4).
+//@ fn types.Middleware.Middleware
+//@   params recv, next, method, pattern, router
+//@   returns T
+//@   pure
+//
+//@ fn ApplyMiddleware
+//@   requires forall k int :: 0 <= k && k < len(f) ==> f[k] != nil
+//@   atcall types.Middleware.Middleware [C09] args: arg0 == f[rangeindex + 1] && arg2 == method && arg3 == pattern && arg4 == router
+//@   inv 1 [C09] bound: -1 <= rangeindex && rangeindex < len(f)
+//
+//@ fn node.applyMiddleware
+//@   requires n != nil && allocated(n) && allSafe() && (forall k int :: 0 <= k && k < len(ms) ==> ms[k] != nil)
+//@   atcall tree.ApplyMiddleware [C09] args: in(arg1, n.handlers) && arg0 == n.handlers[arg1] && arg2 == n.pattern && arg3 == n.root.name && arg4 == ms
+//
+//@ fn Tree.ApplyMiddleware
+//@   requires treeOK(tree) && allSafe() && (forall k int :: 0 <= k && k < len(ms) ==> ms[k] != nil)
+//@   atcall tree.ApplyMiddleware [C09] special: (arg1 == "" || (arg1 == "TRACE" && tree.hasTrace)) && arg2 == "" && arg3 == tree.name && arg4 == ms
+//@   atcall tree.node.applyMiddleware [C09] whole-tree: arg0 == tree.node && arg1 == ms
